@@ -296,7 +296,12 @@ def settle_temporaries(relpath: str, tree: ast.Module) -> Tuple[int, int]:
                 continue
             # an accumulator (receiver of a method call, subscripted, container literal) is not a temporary
             if isinstance(st.value, (ast.List, ast.Dict, ast.Set, ast.ListComp, ast.DictComp, ast.SetComp)) or (isinstance(st.value, ast.Call) and isinstance(st.value.func, ast.Name) and st.value.func.id in ("list", "dict", "set", "bytearray")):
-                continue
+                # a container that is only read once (iterated, passed on) is a temporary; one that is touched in place is not
+                touched = any((isinstance(n, ast.Attribute) and isinstance(n.value, ast.Name) and n.value.id == v) or
+                              (isinstance(n, ast.Subscript) and isinstance(n.value, ast.Name) and n.value.id == v and isinstance(n.ctx, (ast.Store, ast.Del))) or
+                              (isinstance(n, ast.AugAssign) and isinstance(n.target, ast.Name) and n.target.id == v) for n in ast.walk(fn))
+                if touched or len(all_uses) != 1 or not isinstance(st.value, (ast.ListComp, ast.DictComp, ast.SetComp)):
+                    continue
             if any(isinstance(n, ast.Attribute) and isinstance(n.value, ast.Name) and n.value.id == v for n in ast.walk(fn)) and \
                     any(isinstance(c, ast.Call) and isinstance(c.func, ast.Attribute) and isinstance(c.func.value, ast.Name) and c.func.value.id == v for c in ast.walk(fn)):
                 continue
